@@ -24,3 +24,18 @@ package planner
 //@   ensures[permutation] perm(old(p.tbl.Data), p.tbl.Data)
 //@   ensures[sorted] len(p.stm.orderBy) > 0 ==> sortedBy(p.tbl.Data, p.stm.orderBy)
 //@   ensures[no-order] len(p.stm.orderBy) == 0 ==> p.tbl.Data == old(p.tbl.Data)
+
+// LIMIT may be handed to the storage lookup (MaxElements) only when nothing after the pattern
+// can drop, regroup or reorder rows: one clause, no GROUP BY, no HAVING, no ORDER BY. Both call
+// sites of simpleFetch carry the obligation. (The bodies are otherwise outside the subset - they
+// fan out to goroutines - so everything else is havoced: opt modifies-everything.)
+//@ props C12 C13 C11 C08
+//@ func (p *queryPlan) processClause
+//@   opt modifies-everything
+//@   requires p != nil && p.stm != nil && p.tbl != nil && cls != nil && lo != nil
+//@   atcall simpleFetch assert[limit-push-down] stmLimit != 0 ==> len(p.stm.pattern) == 1 && len(p.stm.groupBy) == 0 && len(p.stm.havingExpression) == 0 && len(p.stm.orderBy) == 0
+
+//@ func (p *queryPlan) addSpecifiedData
+//@   opt modifies-everything
+//@   requires p != nil && p.stm != nil && p.tbl != nil && cls != nil && lo != nil
+//@   atcall simpleFetch assert[limit-push-down] stmLimit != 0 ==> len(p.stm.pattern) == 1 && len(p.stm.groupBy) == 0 && len(p.stm.havingExpression) == 0 && len(p.stm.orderBy) == 0
